@@ -40,6 +40,21 @@ def run_case(cs):
     world.write_tree(root, tree)
     subdirs = [x for x in tree if tree[x] is None]
     nested = rng.sample(subdirs, min(len(subdirs), rng.choice([0, 0, 1, 2])))
+    # siblings whose names merely start with the name of a nested history's folder (routing must respect path components)
+    for n in nested:
+        if rng.random() < 0.5:
+            for suffix, data in ((".txt", b"sib" + rng.randbytes(3)), ("_B", None), (" 2", None)):
+                rel = n + suffix
+                if rel not in tree and rng.random() < 0.6:
+                    tree[rel] = data
+                    if data is None:
+                        os.makedirs(os.path.join(root, rel), exist_ok=True)
+                        tree[rel + "/inner.bin"] = b"in" + rng.randbytes(3)
+                        with open(os.path.join(root, rel, "inner.bin"), "wb") as f:
+                            f.write(tree[rel + "/inner.bin"])
+                    else:
+                        with open(os.path.join(root, rel), "wb") as f:
+                            f.write(data)
     prior = rng.choice([0, 0, 1, 2, 3])
     child_first = rng.random() < 0.5
     steps = []
